@@ -111,6 +111,9 @@ func signRaw(s signature.Signer, ctx []byte, msg []byte) []byte {
 
 // verifyRaw is the harness's independent verdict: is sig a valid signature by pk over blob under this chain's transaction context?
 func verifyRaw(pk signature.PublicKey, chainCtx string, blob, sig []byte) bool {
+	if smallOrderKeys[pk] {
+		return false // strict verification: a small-order key signs nothing
+	}
 	h := sha512.New512_256()
 	h.Write(rawContext("oasis-core/consensus: tx", chainCtx))
 	h.Write(blob)
@@ -407,6 +410,55 @@ func vrfCapable(sg signature.Signer) (signature.Signer, error) {
 	}
 	cp.(*memorySigner.Signer).UnsafeSetRole(signature.SignerVRF)
 	return cp, nil
+}
+
+// smallOrderKeys are the encodings of the Ed25519 points of small order (canonical and non-canonical).
+var smallOrderKeys = func() map[signature.PublicKey]bool {
+	m := map[signature.PublicKey]bool{}
+	for _, h := range []string{
+		"0100000000000000000000000000000000000000000000000000000000000000",
+		"ecffffffffffffffffffffffffffffffffffffffffffffffffffffffffffff7f",
+		"0000000000000000000000000000000000000000000000000000000000000000",
+		"0000000000000000000000000000000000000000000000000000000000000080",
+		"c7176a703d4dd84fba3c0b760d10670f2a2053fa2c39ccc64ec7fd7792ac037a",
+		"c7176a703d4dd84fba3c0b760d10670f2a2053fa2c39ccc64ec7fd7792ac03fa",
+		"26e8958fc2b227b045c3f489f2ef98f0d5dfac05d3c63339b13802886d53fc05",
+		"26e8958fc2b227b045c3f489f2ef98f0d5dfac05d3c63339b13802886d53fc85",
+		"0100000000000000000000000000000000000000000000000000000000000080",
+		"ecffffffffffffffffffffffffffffffffffffffffffffffffffffffffffffff",
+		"eeffffffffffffffffffffffffffffffffffffffffffffffffffffffffffff7f",
+		"eeffffffffffffffffffffffffffffffffffffffffffffffffffffffffffffff",
+		"edffffffffffffffffffffffffffffffffffffffffffffffffffffffffffff7f",
+		"edffffffffffffffffffffffffffffffffffffffffffffffffffffffffffffff",
+	} {
+		var pk signature.PublicKey
+		if pk.UnmarshalHex(h) == nil {
+			m[pk] = true
+		}
+	}
+	return m
+}()
+
+// smallOrderForgery builds an envelope nobody holds a key for: a small-order public key and the signature (R = identity, S = 0).
+func (n *cnNet) smallOrderForgery(rng *rand.Rand) ([]byte, *cnTxSpec, bool) {
+	keys := []string{
+		"0100000000000000000000000000000000000000000000000000000000000000",
+		"ecffffffffffffffffffffffffffffffffffffffffffffffffffffffffffff7f",
+		"0000000000000000000000000000000000000000000000000000000000000000",
+		"c7176a703d4dd84fba3c0b760d10670f2a2053fa2c39ccc64ec7fd7792ac037a",
+		"26e8958fc2b227b045c3f489f2ef98f0d5dfac05d3c63339b13802886d53fc05",
+	}
+	var st transaction.SignedTransaction
+	if st.Signature.PublicKey.UnmarshalHex(keys[rng.Intn(len(keys))]) != nil {
+		return nil, nil, false
+	}
+	st.Signature.Signature[0] = 1 // R = (0, 1), S = 0
+	to := n.users[rng.Intn(len(n.users))]
+	sp := &cnTxSpec{Kind: "allow", Signer: "nobody", To: to.name, Amount: int64(rng.Intn(3)), Nonce: 0, Gas: 2000, Validity: "forged-smallorder"}
+	fee := transaction.Fee{Gas: transaction.Gas(sp.Gas)}
+	tx := staking.NewAllowTx(0, &fee, &staking.Allow{Beneficiary: to.addr, AmountChange: qq(sp.Amount)})
+	st.Blob = cbor.Marshal(tx)
+	return cbor.Marshal(st), sp, true
 }
 
 func runtimeID(name string) common.Namespace {
